@@ -277,9 +277,11 @@ class DictReader:
                 _refs = re.findall(pattern=r"\$\w[\w\[\]]*", string=expression)
                 for ref in _refs:
                     if ref in references_resolved:
+                        # replace the reference as a whole token (not where it is a prefix of a longer reference)
+                        # and insert the value literally (not as a replacement template)
                         expression = re.sub(
-                            pattern=f"{re.escape(pattern=ref)}",
-                            repl=str(references_resolved[ref]),
+                            pattern=f"{re.escape(pattern=ref)}(?![\\w\\[])",
+                            repl=lambda _match, _value=str(references_resolved[ref]): _value,
                             string=expression,
                         )
 
